@@ -33,6 +33,11 @@ Tampers == {"flip_authkeyid", "flip_msgkey", "flip_body_first", "flip_body_mid",
             "extend16", "extend_odd", "reflect", "foreign_key", "foreign_key_same_id", "swap_blocks", "zero_msgkey"}
 C05Cases == { [prop |-> "C05", cls |-> "tamper", in |-> [kind |-> "tamper", side |-> s, len |-> l, tamper |-> t],
                expect |-> [ok |-> FALSE, leaked |-> FALSE]] : s \in Sides, l \in {0, 16, 1024}, t \in Tampers }
+\* an adversary is not limited to one forgery: `n` independent forgeries of the trailing ciphertext blocks of one valid
+\* message (the header blocks stay intact, so only the msg_key comparison stands between the forgery and the caller).
+\* With a full 128-bit comparison none is ever accepted; a comparison of fewer bits shows up within a few hundred tries.
+C05BruteCases == { [prop |-> "C05", cls |-> "brute", in |-> [kind |-> "brute", side |-> s, len |-> l, n |-> IF Thorough THEN 20000 ELSE 3000, blocks |-> k],
+                    expect |-> [accepted |-> 0]] : s \in Sides, l \in {68, 1024}, k \in {1, 2} }
 \* C07 padding clause: messages built with an exact padding length (authentic key, correct msg_key)
 Pads == {0, 4, 8, 12, 16, 28, 1008, 1024, 1028, 1040, 2048}
 PadOK(p) == p >= 12 /\ p <= 1024
@@ -47,5 +52,5 @@ C14Cases == { [prop |-> "C14", cls |-> "rsapad", in |-> [kind |-> "rsapad", sche
                           ELSE IF k = "same" /\ t = "none" THEN [encrypt_ok |-> TRUE, decrypt_ok |-> TRUE, data_equal |-> TRUE, ct_len |-> 256]
                           ELSE [encrypt_ok |-> TRUE, decrypt_ok |-> FALSE]]
               : sc \in {"pad", "hashed"}, l \in {0, 1, 16, 143, 144, 145, 235, 236}, k \in {"same", "other"}, t \in {"none", "flip", "zero"} }
-ASSUME Dump == \A c \in C04Cases \cup C05Cases \cup C07PadCases \cup C07LenCases \cup C14Cases : PrintT(ToJson(c))
+ASSUME Dump == \A c \in C04Cases \cup C05Cases \cup C05BruteCases \cup C07PadCases \cup C07LenCases \cup C14Cases : PrintT(ToJson(c))
 =============================================================================
